@@ -19,12 +19,17 @@ def suites(tier):
     else:
         nmax, mmax = 5, 3
     for cfg in product(scheme=[0, 1, 2], cs=[0], fwd=[0, 1]):
-        cfg.update(norm=0, pos=0, rep=0, pk=0, slab=0, best=1, nmin=0, nmax=nmax, mmin=1, mmax=mmax, slabmax16=0, slabmax32=0)
+        cfg.update(norm=0, pos=0, rep=0, pk=0, slab=0, best=1, nmin=0, nmax=nmax, mmin=1, mmax=mmax, c16=0, c32=0)
         jobs.append(dict(id=jid("v2", cfg), func="zzH_C03_v2", cfg=cfg))
+    # dirty scratch slab (arbitrary stale contents): the score must still be the recurrence's
+    for cfg in product(scheme=[0], cs=[0], fwd=[0, 1], c16=[16, 40]):
+        cfg.update(norm=0, pos=0, rep=0, pk=0, slab=1, best=0, nmin=1, nmax=nmax, mmin=1, mmax=mmax, c32=12)
+        jobs.append(dict(id=jid("v2slab", cfg), func="zzH_C03_v2", cfg=cfg))
+    occn = nmax if tier == "quick" else nmax + 1
     for cfg in product(kind=[0, 2, 3, 5], scheme=[0, 1], fwd=[0, 1]):
-        cfg.update(cs=0, norm=0, pos=0, rep=0, pk=0, nmin=0, nmax=nmax + 1, mmin=1, mmax=mmax)
+        cfg.update(cs=0, norm=0, pos=0, rep=0, pk=0, nmin=0, nmax=occn, mmin=1, mmax=mmax)
         jobs.append(dict(id=jid("occ", cfg), func="zzH_C03_occ", cfg=cfg))
     for cfg in product(kind=[1, 4], scheme=[0, 1, 2], fwd=[0, 1]):
-        cfg.update(cs=0, norm=0, pos=0, rep=0, pk=0, nmin=0, nmax=nmax + 1, mmin=1, mmax=mmax)
+        cfg.update(cs=0, norm=0, pos=0, rep=0, pk=0, nmin=0, nmax=occn, mmin=1, mmax=mmax)
         jobs.append(dict(id=jid("closed", cfg), func="zzH_C03_closed", cfg=cfg))
     return [dict(ALGO, name="algo", jobs=jobs)]
